@@ -7,6 +7,7 @@ package main
 //	startup=<part>[+<part>...]   part = once:N | const:OPS:MS | constm:MILLIOPS:MS (fractional rate) | step:FROM:TO:STEP:MS |
 //	                             [<part>+<part>...] (a NESTED composite)                       (real schedule constructors)
 //	rps=<part>[+...] [perinst=1] ammo=<N, 0 = unlimited> resp=<ms> [cancel=<ms>] [gundelay=<ms>: every instance gun takes that long to create]
+//	[prov=mem: a provider whose Acquire does not depend on its context (default: provider.NewNum, which stops handing out ammo once the run is cancelled)]
 //	an instance that cannot be created, at each of the three points of newInstance (j = 0-based creation attempt):
 //	[failgun=<j>: NewGun fails] [failbind=<j>: gun.Bind fails] [failsched=<j>: NewRPSSchedule fails (perinst=1 only)]
 //	<pool> || <pool> ...         several pools in ONE engine (cancel= is taken from the first); the observation is one
@@ -125,6 +126,26 @@ func (p *recProvider) Acquire() (core.Ammo, bool) {
 	}
 	return a, ok
 }
+
+// memProvider: a provider that hands out ammo from memory, whatever the state of its context (what it has buffered stays available
+// after the run was cancelled) - unlike provider.NewNum, whose Acquire fails once its Run context is done.  `prov=mem`.
+type memProvider struct {
+	limit int64 // <= 0: unlimited
+	mu    sync.Mutex
+	n     int64
+}
+
+func (p *memProvider) Run(ctx context.Context, _ core.ProviderDeps) error { <-ctx.Done(); return nil }
+func (p *memProvider) Acquire() (core.Ammo, bool) {
+	p.mu.Lock()
+	defer p.mu.Unlock()
+	if p.limit > 0 && p.n >= p.limit {
+		return nil, false
+	}
+	p.n++
+	return p.n, true
+}
+func (p *memProvider) Release(core.Ammo) {}
 
 type recGun struct {
 	r        *rec
@@ -308,12 +329,16 @@ func newPoolCase(id string, m map[string]string) *poolCase {
 		r.fails++
 		r.mu.Unlock()
 	}
+	var prov core.Provider = provider.NewNum(ammo)
+	if m["prov"] == "mem" {
+		prov = &memProvider{limit: int64(ammo)}
+	}
 	var gunCalls int64 = -1 // the first NewGun call is the warm-up gun of the pool
 	var schedCalls int64
 	var gunMu sync.Mutex
 	pc.conf = engine.InstancePoolConfig{
 		ID:         id,
-		Provider:   &recProvider{Provider: provider.NewNum(ammo), r: r},
+		Provider:   &recProvider{Provider: prov, r: r},
 		Aggregator: nopAggr{},
 		NewGun: func() (core.Gun, error) {
 			gunMu.Lock()
@@ -616,7 +641,7 @@ func withCause(r *rand.Rand, su string, kind, cutAt int) string {
 	case 2: // ammo: 20 rps, the last ammo is shot at about cutAt ms
 		return fmt.Sprintf("startup=%s rps=const:20:12000 ammo=%d resp=0", su, cutAt/50+1)
 	case 3:
-		return fmt.Sprintf("startup=%s rps=const:10:12000 ammo=0 resp=%d cancel=%d", su, []int{0, 20}[r.Intn(2)], cutAt)
+		return fmt.Sprintf("startup=%s rps=const:10:6000 ammo=0 resp=%d cancel=%d%s", su, []int{0, 20}[r.Intn(2)], cutAt, []string{"", " prov=mem"}[r.Intn(2)])
 	case 4:
 		return fmt.Sprintf("startup=%s rps=const:10:12000 ammo=0 resp=0 failgun=%d cancel=7000", su, r.Intn(5))
 	case 5: // per-instance RPS profiles that end while the startup goes on: that ends instances, not instance start
@@ -694,6 +719,10 @@ func gen(r *rand.Rand, tier string) []string {
 		// fractional rates: 0.5 instances per second for 4 s (tokens at 0 and 2 s); for 1 s (no token at all: nothing may be started)
 		"startup=constm:500:4000 rps=const:10:5000 ammo=0 resp=0",
 		"startup=constm:500:1000 rps=const:10:1000 ammo=0 resp=0",
+		// a provider that keeps handing out ammo after the run was cancelled: the instances must stop because the RUN is cancelled
+		"startup=once:3 rps=const:10:6000 ammo=0 resp=0 cancel=800 prov=mem",
+		"startup=const:1:4000 rps=const:20:6000 perinst=1 ammo=0 resp=5 cancel=2500 prov=mem",
+		"startup=step:1:3:1:500 rps=const:10:6000 ammo=40 resp=0 prov=mem",
 		// several pools in one engine: ids, profile and causes are per pool; a pool that runs dry or finishes must not touch the others;
 		// a pool that FAILS cancels the run of the others
 		"startup=once:2+const:0:1000+once:2 rps=const:10:10000 ammo=5 resp=0 || startup=const:1:3000 rps=const:10:3500 ammo=0 resp=0",
